@@ -42,7 +42,7 @@ var CfgC02 = reg(&MachineCfg{
 		}
 	},
 	Gens: []interface{}{"aol", 62, "commit", 12, "authz", 12, "crash", 2, "restart", 2, "export", 3, "bank", 2, "pnft", 2, "sim_aol", 6},
-	Bias: map[string]int{"right-signers": 55, "exec": 22, "fee-payer": 40, "multi": 18, "tamper": 10, "group": 15},
+	Bias: map[string]int{"right-signers": 55, "exec": 22, "fee-payer": 40, "multi": 24, "tamper": 8, "group": 12},
 	Rule: "same machine with independently chosen signer sets (right, other account, swapped, dropped, garbage signature, wrong sequence, extra), sign modes direct/amino-json/direct-aux, named fee payers and authz grant/revoke/exec; oracle = transition validity on the aol store diff of every DeliverTx; non-trivial = at least one refused AOL attempt and at least one accepted writer-list change or append",
 	NonTrivial: func(w *world.World) bool {
 		return lab(w, "aol refused attempt") > 0 && (lab(w, "aol record acknowledged") > 0 || lab(w, "aol writer added") > 0)
